@@ -383,4 +383,32 @@ theorem Resize.taps_in_range (floor : Rat → Rat) (toNat : Rat → ℕ)
   omega
 end Trees
 
+/-! ### `DropoutLayer` -/
+section Dropout
+open Finset
+theorem dropout_input_derivative (mask X C : ℕ → ℕ → ℝ) (B n i0 j0 : ℕ) (hi : i0 < B) (hj : j0 < n) :
+    HasDerivAt (fun t => ∑ i ∈ range B, ∑ k ∈ range n,
+        C i k * dropoutEval mask (fun i j => if i = i0 ∧ j = j0 then t else X i j) i k)
+      (dropoutGradX mask C i0 j0) (X i0 j0) := by
+  have hterm : ∀ i k, HasDerivAt (fun t : ℝ => C i k * dropoutEval mask (fun i j => if i = i0 ∧ j = j0 then t else X i j) i k)
+      (if i = i0 ∧ k = j0 then C i k * mask i k else 0) (X i0 j0) := by
+    intro i k
+    unfold dropoutEval
+    by_cases h : i = i0 ∧ k = j0
+    · simp only [h, and_self, ↓reduceIte]
+      have := ((hasDerivAt_id (X i0 j0)).mul_const (mask i0 j0)).const_mul (C i0 j0)
+      simpa [mul_comm, mul_left_comm] using this
+    · simp only [h, ↓reduceIte]
+      exact hasDerivAt_const _ _
+  have hsum := HasDerivAt.fun_sum (u := range B) (fun i _ => HasDerivAt.fun_sum (u := range n) (fun k _ => hterm i k))
+  have hval : (∑ i ∈ range B, ∑ k ∈ range n, if i = i0 ∧ k = j0 then C i k * mask i k else 0) = dropoutGradX mask C i0 j0 := by
+    unfold dropoutGradX
+    rw [Finset.sum_eq_single i0 (fun i _ hne => by
+      apply Finset.sum_eq_zero; intro k _; simp [hne]) (fun h => absurd (mem_range.2 hi) h)]
+    rw [Finset.sum_eq_single j0 (fun k _ hne => by simp [hne]) (fun h => absurd (mem_range.2 hj) h)]
+    simp
+  rw [← hval]
+  exact hsum
+end Dropout
+
 end SharkVerif.Models
